@@ -44,9 +44,25 @@ const tick = time.Millisecond
 
 var t0 = time.Unix(1_700_000_000, 0)
 
-func genOp(valid bool) *rapid.Generator[Op] {
+func genOp(valid bool, ttl int) *rapid.Generator[Op] {
 	return rapid.Custom(func(t *rapid.T) Op {
 		w := rapid.IntRange(0, 99).Draw(t, "opkind")
+		if valid {
+			// remap so that clock advances and collections are frequent enough to expire,
+			// collect and shrink: put 38, badput 5, replay 25, gc 12, advance 20
+			switch {
+			case w < 38:
+				w = 0
+			case w < 43:
+				w = 45
+			case w < 68:
+				w = 52
+			case w < 80:
+				w = 80
+			default:
+				w = 88
+			}
+		}
 		switch {
 		case w < 45:
 			return Op{Kind: "put", Topics: genTopics.Draw(t, "topics"), FailSend: -1}
@@ -81,7 +97,7 @@ func genOp(valid bool) *rapid.Generator[Op] {
 		case w < 88:
 			return Op{Kind: "gc", FailSend: -1}
 		default:
-			return Op{Kind: "advance", Dt: rapid.OneOf(rapid.IntRange(0, 3), rapid.IntRange(0, 25)).Draw(t, "dt"), FailSend: -1}
+			return Op{Kind: "advance", Dt: rapid.OneOf(rapid.IntRange(0, 2), rapid.IntRange(max(ttl-1, 0), ttl+1), rapid.IntRange(0, 2*ttl+2)).Draw(t, "dt"), FailSend: -1}
 		}
 	})
 }
@@ -94,14 +110,15 @@ func genFiniteCase(t *rapid.T) Case {
 		c.EmptyIDSerial = rapid.IntRange(0, 2*c.N).Draw(t, "emptyid")
 	}
 	c.Prefill = rapid.IntRange(0, 3*c.N).Draw(t, "prefill")
-	c.Ops = rapid.SliceOfN(genOp(false), 1, 6*c.N+10).Draw(t, "ops")
+	minOps := rapid.IntRange(1, 3*c.N).Draw(t, "minops")
+	c.Ops = rapid.SliceOfN(genOp(false, 0), minOps, 6*c.N+10).Draw(t, "ops")
 	return c
 }
 
 func genValidCase(t *rapid.T) Case {
 	c := Case{Kind: "valid", EmptyIDSerial: -1}
 	c.Auto = rapid.Bool().Draw(t, "auto")
-	c.TTL = rapid.IntRange(1, 20).Draw(t, "ttl")
+	c.TTL = rapid.OneOf(rapid.IntRange(1, 5), rapid.IntRange(1, 20)).Draw(t, "ttl")
 	switch rapid.IntRange(0, 4).Draw(t, "gckind") {
 	case 0:
 		c.GCInterval = 0
@@ -116,7 +133,8 @@ func genValidCase(t *rapid.T) Case {
 		c.EmptyIDSerial = rapid.IntRange(0, 12).Draw(t, "emptyid")
 	}
 	c.Prefill = rapid.IntRange(0, 20).Draw(t, "prefill")
-	c.Ops = rapid.SliceOfN(genOp(true), 1, 60).Draw(t, "ops")
+	minOps := rapid.IntRange(1, 40).Draw(t, "minops")
+	c.Ops = rapid.SliceOfN(genOp(true, c.TTL), minOps, 70).Draw(t, "ops")
 	return c
 }
 
@@ -492,4 +510,11 @@ func (w *world) probe() string {
 		return "invariant probe: " + f
 	}
 	return ""
+}
+
+func genC18Case(t *rapid.T) Case {
+	if rapid.Bool().Draw(t, "finite") {
+		return genFiniteCase(t)
+	}
+	return genValidCase(t)
 }
